@@ -252,6 +252,7 @@ func Build(s Spec) *Op {
 	case TNoDelta:
 		delete(req, "delta")
 		op.DHashOK = false
+		op.UpdC = "" // no delta: nothing commits to a next update key
 	}
 	b, err := json.Marshal(req)
 	must(err)
